@@ -159,6 +159,98 @@ theorem redef_preserves_data (m : ReadMode) (nprocs unit : Nat) (hp : 1 ≤ npro
   enddefMove_preserves m nprocs unit hp hu f (layOf Lo) (layOf Ln) (ov ++ extra).length numrecs mv
     (redef_layout_ok fmt xszO xsz ov extra alO al oldO Lo Ln hwo hal hlen hpk hb mv hmv hmvlen)
 
+/-! ### every redefinition history -/
+
+/-- consecutive enddefs of a history -/
+def stepPairs : List Step → List (Step × Step)
+  | a :: b :: rest => (a, b) :: stepPairs (b :: rest)
+  | _ => []
+
+/-- what `redef_layout_ok` concludes, for one pair of consecutive enddefs -/
+def PairOK (a b : Step) : Prop :=
+  ∀ mv : List MVar,
+    mv.filter (fun w => !w.isRec) = fixedMVars (a.vars.filter (fun v => !v.isRec)) a.L.fixedBegins b.L.fixedBegins →
+    mv.length = a.vars.length → LayoutOK (layOf a.L) (layOf b.L) b.vars.length mv
+
+theorem history_pairs_from (fmt : Fmt) : ∀ (ps : List Phase) (a : Step) (steps : List Step),
+    LayoutWF a.xsz a.vars a.al a.old a.L →
+    (∀ v ∈ a.vars, (v.len % 4 = 0 ∧ 0 < v.len) ∧ v.packed ≤ v.len) →
+    (∀ p ∈ ps, ∀ v ∈ p.extra, (v.len % 4 = 0 ∧ 0 < v.len) ∧ v.packed ≤ v.len) →
+    runHistory fmt a.vars a.L.beginRec (some (toOld a.vars a.L)) ps = .ok steps →
+    ∀ pr ∈ stepPairs (a :: steps), PairOK pr.1 pr.2 := by
+  intro ps
+  induction ps with
+  | nil =>
+    intro a steps _ _ _ h
+    simp only [runHistory, Except.ok.injEq] at h
+    subst h
+    intro pr hpr; simp [stepPairs] at hpr
+  | cons p ps ih =>
+    intro a steps hwa hva hps h
+    simp only [runHistory] at h
+    split at h
+    · contradiction
+    · rename_i L hL
+      split at h
+      · contradiction
+      · rename_i rest hrest
+        simp only [Except.ok.injEq] at h
+        subst h
+        have hv' : ∀ v ∈ a.vars ++ p.extra, (v.len % 4 = 0 ∧ 0 < v.len) ∧ v.packed ≤ v.len := by
+          intro v hm
+          rcases List.mem_append.mp hm with x | x
+          · exact hva v x
+          · exact hps p (by simp) v x
+        have hal := resolveAlign_ok p.envH p.envV p.envR p.hMin p.argV p.vMin p.argR
+          ((a.vars ++ p.extra).length - (a.vars.filter (fun v => v.isRec)).length) (some (toOld a.vars a.L)).isSome
+        have hwb := ncBegins_wf fmt p.xsz (a.vars ++ p.extra) _ a.L.beginRec (some (toOld a.vars a.L)) L hal
+          (fun v hv => (hv' v hv).1)
+          (fun o ho => by
+            simp only [Option.some.injEq] at ho
+            subst ho
+            exact ⟨wf_toOld a.xsz a.vars p.extra a.al a.old a.L hwa, rfl⟩) hL
+        intro pr hpr
+        simp only [stepPairs, List.mem_cons] at hpr
+        rcases hpr with rfl | hpr
+        · intro mv hmv hlen
+          exact redef_layout_ok fmt a.xsz p.xsz a.vars p.extra a.al _ a.old a.L L hwa hal
+            (fun v hv => (hv' v hv).1) (fun v hv => (hva v hv).2) hL mv hmv hlen
+        · exact ih { xsz := p.xsz, vars := a.vars ++ p.extra, al := _, old := some (toOld a.vars a.L), L := L } rest
+            hwb hv' (fun q hq => hps q (by simp [hq])) hrest pr hpr
+
+/-- **history_layout_ok**: create a file, then ANY number of rounds (define more variables, enddef with
+    any hints / ncmpi__enddef arguments, data mode, redef): for every two consecutive enddefs of the
+    history the layout pair satisfies every fact the data-moving code relies on — hence, by
+    `enddefMove_preserves`, every redefinition of every history keeps every existing byte of every old
+    variable and record.  The only hypotheses are the facts `varsOf_len` / `varsOf_packed` prove of
+    every variable computed from a schema. -/
+theorem history_layout_ok (fmt : Fmt) (ps : List Phase) (steps : List Step)
+    (hps : ∀ p ∈ ps, ∀ v ∈ p.extra, (v.len % 4 = 0 ∧ 0 < v.len) ∧ v.packed ≤ v.len)
+    (h : runHistory fmt [] 0 none ps = .ok steps) :
+    ∀ pr ∈ stepPairs steps, PairOK pr.1 pr.2 := by
+  cases ps with
+  | nil =>
+    simp only [runHistory, Except.ok.injEq] at h
+    subst h
+    intro pr hpr; simp [stepPairs] at hpr
+  | cons p ps =>
+    simp only [runHistory] at h
+    split at h
+    · contradiction
+    · rename_i L hL
+      split at h
+      · contradiction
+      · rename_i rest hrest
+        simp only [Except.ok.injEq] at h
+        subst h
+        have hv' : ∀ v ∈ ([] : List VarL) ++ p.extra, (v.len % 4 = 0 ∧ 0 < v.len) ∧ v.packed ≤ v.len := by
+          intro v hm
+          exact hps p (by simp) v (by simpa using hm)
+        have hwa := ncBegins_wf fmt p.xsz ([] ++ p.extra) _ 0 none L (resolveAlign_ok _ _ _ _ _ _ _ _ _)
+          (fun v hv => (hv' v hv).1) (fun o ho => by cases ho) hL
+        exact history_pairs_from fmt ps { xsz := p.xsz, vars := [] ++ p.extra, al := _, old := none, L := L } rest
+          hwa hv' (fun q hq => hps q (by simp [hq])) hrest
+
 /-- the side conditions of `redef_layout_ok` on the variable list (`len` a positive multiple of 4,
     `packed ≤ len`) are no assumptions when the list comes from a schema through the model of
     ncmpio_NC_var_shape64 (every dimension list, type and shape the C accepts) -/
@@ -184,8 +276,15 @@ example : LayoutWF 100 exOv (resolveAlign 0 0 0 0 0 0 0 3 false) none exLo :=
 example : exMv.filter (fun w => !w.isRec) = fixedMVars (exOv.filter (fun v => !v.isRec)) exLo.fixedBegins exLn.fixedBegins ∧
     exMv.length = exOv.length ∧ (∀ v ∈ exOv, v.packed ≤ v.len) ∧ (∀ v ∈ exOv ++ exExtra, v.len % 4 = 0 ∧ 0 < v.len) := by decide
 
+/-- non-vacuity of `history_layout_ok`: a three-phase history (create with three variables, a redefinition
+    that appends a fixed and a record variable and grows the header beyond its extent, a redefinition
+    that only adds free space) is accepted and has two consecutive pairs -/
+example : ∃ steps, runHistory .cdf1 [] 0 none
+      [⟨100, exOv, 0, 0, 0, 0, 0, 0, 0⟩, ⟨700, exExtra, 0, 0, 0, 0, 4, 0, 4⟩, ⟨720, [], 0, 0, 0, 64, 0, 32, 0⟩] = .ok steps ∧
+    (stepPairs steps).length = 2 ∧ (steps.map (fun s => s.L.beginVar)) = [512, 700, 784] := ⟨_, rfl, rfl, rfl⟩
+
 end PnVerif.Props.C06
 
 namespace PnVerif.Props.C06Layout
-def obligations : List String := ["FixedOK_of_filter", "redef_layout_ok", "redef_preserves_data", "packed_le_len_schema"]
+def obligations : List String := ["FixedOK_of_filter", "redef_layout_ok", "redef_preserves_data", "packed_le_len_schema", "history_pairs_from", "history_layout_ok"]
 end PnVerif.Props.C06Layout
